@@ -157,7 +157,7 @@ class C15:
                 cwd = foreign[0]["dir"] if foreign else ""
             cases.append({"libs": libs, "comps": comps, "foreign": foreign, "cwd": cwd, "release": rng.random() < 0.3,
                           "pkgdir": rng.choice(["default", "default", "abs", "rel"]),
-                          "seed_ids": [x["id"] for x in libs + comps if rng.random() < 0.6], "seed_kind": rng.randint(0, 3)})
+                          "seed_ids": [x["id"] for x in libs + comps if rng.random() < 0.6], "seed_kind": rng.randint(0, 4)})
         # designed: a libcnb.rs buildpack whose own package.toml depends on another one, packaged from its own directory
         cases.append({"libs": [{"dir": "buildpacks/base", "id": "verif/base", "pkg": "pbase", "bins": ["pbase"], "extra": "", "aux": []},
                                {"dir": "buildpacks/web", "id": "verif/web", "pkg": "pweb", "bins": ["pweb"], "extra": "", "aux": [],
@@ -263,6 +263,11 @@ class C15:
         outbase = os.path.join(pkgdir, TARGET, profile)
         for bid in c["seed_ids"]:
             d = os.path.join(outbase, bid.replace("/", "_"))
+            if c["seed_kind"] == 4:
+                # the output path is a dangling symbolic link left by something else: same as an empty directory
+                os.makedirs(outbase, exist_ok=True)
+                os.symlink("/nonexistent/elsewhere", d)
+                continue
             os.makedirs(os.path.join(d, "bin", "old"), exist_ok=True)
             open(os.path.join(d, "stale.txt"), "w").write("stale")
             if c["seed_kind"] >= 1:
